@@ -108,11 +108,8 @@ def _case(draw, tier):
         # the replacement must not mention any override key or tower class except the documented A | C form
         if contains_key(c, KEYS):
             c = ['cls', 'int']
-        # known finding C18/override-to-ignorable-in-union: replacements that beartype ignores (Any, object,
-        # unbound TypeVar) are excluded by construction and counted
-        if any(k in ('any',) for k in H.node_kinds(c)) or H.mentions_tv(c, 'VT'):
-            c = ['cls', 'int']
-            nex += 1
+        # (replacements beartype ignores - Any, object, unbound TypeVar - were excluded while C18/override-to-ignorable-in-union was
+        # an open finding; repaired in 53677c3, they are generated again)
         if mode in ('self-wide', 'wide'):
             # replacement = a union with more members than the unions the key usually sits in (Optional[A], A | int)
             extra = draw(st.lists(st.sampled_from([['cls', 'int'], ['cls', 'str'], ['cls', 'VBase'], ['cls', 'bool'], ['none']]),
